@@ -217,4 +217,68 @@ def standin_malformed(tier, seed):
                 bound=dict(space="malformation kinds of the property x 4 row positions + event / joint layouts", exhaustive=True))
 
 
-STANDINS = [standin_visit_tables, standin_malformed]
+def standin_direct_api(tier, seed):
+    """IndividualData.add_observations / Data.from_individual_values called directly (the readers have their own duplicate
+    check): every pair of batches of ages drawn from a small set -- repeats inside a batch, across batches, unsorted --
+    is refused iff some age occurs twice, and otherwise stored sorted with every age keeping its own observations."""
+    import itertools
+    import numpy as np
+    from leaspy.io.data.individual_data import IndividualData
+    from leaspy.io.data import Data
+    from leaspy.exceptions import LeaspyDataInputError
+    violations, evals, distinct = [], 0, set()
+    ages = [70.0, 71.5, 72.25]
+    n1 = 3 if tier == "quick" else 4
+    batches1 = [b for k in range(1, n1 + 1) for b in itertools.product(ages, repeat=k)]
+    batches2 = [()] + [b for k in range(1, 3) for b in itertools.product(ages + [69.0], repeat=k)]
+
+    def obs(a):
+        return [a / 100.0, 1.0 - a / 100.0]
+    for b1, b2 in itertools.product(batches1, batches2):
+        evals += 1
+        allages = list(b1) + list(b2)
+        dup = len(set(allages)) != len(allages)
+        distinct.add((b1, b2))
+        ind = IndividualData("s")
+        try:
+            ind.add_observations(list(b1), [obs(a) for a in b1])
+            if b2:
+                ind.add_observations(list(b2), [obs(a) for a in b2])
+            raised = None
+        except LeaspyDataInputError:
+            raised = "LeaspyDataInputError"
+        except Exception as e:
+            raised = type(e).__name__
+        if dup and raised is None:
+            violations.append(dict(key="add_observations accepts an age that occurs twice " + ("inside the first batch" if len(set(b1)) != len(b1) else "across calls"),
+                                   batches=[list(b1), list(b2)], stored=ind.timepoints.tolist()))
+        elif not dup and raised is not None:
+            violations.append(dict(key=f"add_observations refuses distinct ages ({raised})", batches=[list(b1), list(b2)]))
+        elif dup and raised != "LeaspyDataInputError":
+            violations.append(dict(key=f"add_observations: {raised} instead of LeaspyDataInputError for a repeated age", batches=[list(b1), list(b2)]))
+        elif not dup:
+            t = ind.timepoints.tolist()
+            if t != sorted(allages) or any(list(o) != obs(a) for a, o in zip(t, ind.observations.tolist())):
+                violations.append(dict(key="add_observations: visits not sorted or observations not aligned with their ages", batches=[list(b1), list(b2)], stored=t))
+    # the public constructor from lists
+    for b1 in batches1:
+        evals += 1
+        dup = len(set(b1)) != len(b1)
+        try:
+            d = Data.from_individual_values(["s"], [list(b1)], [[obs(a) for a in b1]], ["f0", "f1"])
+            raised = None
+        except LeaspyDataInputError:
+            raised = "LeaspyDataInputError"
+        except Exception as e:
+            raised = type(e).__name__
+        if dup and raised is None:
+            violations.append(dict(key="Data.from_individual_values accepts an individual with the same age twice", ages=list(b1)))
+        elif not dup and (raised is not None or d["s"].timepoints.tolist() != sorted(b1)):
+            violations.append(dict(key=f"Data.from_individual_values: distinct ages refused or not sorted ({raised})", ages=list(b1)))
+    uniq = {v["key"]: v for v in violations}
+    return dict(evaluations=evals, distinct_nontrivial=len(distinct), rule="one evaluation = one pair of batches through the real add_observations (or one list through from_individual_values); all pairs distinct",
+                samples=[dict(batches=[list(batches1[5]), list(batches2[3])])], violations=list(uniq.values())[:6],
+                bound=dict(ages=ages, first_batch_len=n1, second_batch_len=2, exhaustive=True))
+
+
+STANDINS = [standin_direct_api, standin_visit_tables, standin_malformed]
